@@ -1,7 +1,6 @@
 package main
 
 import (
-	"sort"
 	"bytes"
 	"encoding/json"
 	"flag"
@@ -13,8 +12,10 @@ import (
 	"os"
 	"path/filepath"
 	"reflect"
+	"sort"
 	"strconv"
 	"strings"
+	"time"
 
 	ucfg "github.com/elastic/go-ucfg"
 	"github.com/elastic/go-ucfg/hjson"
@@ -171,10 +172,10 @@ func provokeAll(cur *ucfg.Config, v interface{}, path []string, fname string, fr
 
 // typedExpect: what Uint / Int / Float of a number token must give (exact arithmetic); asFloat: the token as a
 // decoder that reads every number as float64 sees it (deviation JsonNumbersAsFloat64)
-func typedExpect(tok string, asFloat bool) (out [4]string) {
+func typedExpect(tok string, asFloat bool) (out [5]string) {
 	r, ok := new(big.Rat).SetString(tok)
 	if !ok {
-		return [4]string{"?", "?", "?", "?"}
+		return [5]string{"?", "?", "?", "?", "?"}
 	}
 	if asFloat {
 		f, _ := r.Float64()
@@ -191,11 +192,26 @@ func typedExpect(tok string, asFloat bool) (out [4]string) {
 	f, _ := r.Float64()
 	out[2] = "ok:" + canonFloat(f)
 	out[3] = "err" // a number is never a bool, whatever the front-end made of it
+	// a number into a time.Duration means seconds: exactly r * 1e9 nanoseconds, or an error when that does not fit
+	ns := new(big.Rat).Mul(r, big.NewRat(1000000000, 1))
+	out[4] = "err"
+	if nt := new(big.Int).Quo(ns.Num(), ns.Denom()); nt.IsInt64() && ns.IsInt() {
+		out[4] = "ok:" + nt.String()
+	} else if ns.IsInt() == false && nt.IsInt64() {
+		out[4] = "skip" // a fraction of a nanosecond: not in the universe
+	}
 	return
 }
 
+func withSkip(exp, got [5]string) [5]string {
+	if got[4] == "skip" {
+		exp[4] = "skip"
+	}
+	return exp
+}
+
 // typedAll walks the expected observation and reads every number leaf through the three numeric getters
-func typedAll(cur *ucfg.Config, exp interface{}, path []string, visit func(at, tok string, got [4]string)) {
+func typedAll(cur *ucfg.Config, exp interface{}, path []string, visit func(at, tok string, got [5]string)) {
 	read := func(name string, idx int, x interface{}) {
 		at := strings.Join(path, "/") + "/" + name + fmt.Sprintf("#%d", idx)
 		switch v := x.(type) {
@@ -203,7 +219,7 @@ func typedAll(cur *ucfg.Config, exp interface{}, path []string, visit func(at, t
 			if !strings.HasPrefix(v, "n:") {
 				return
 			}
-			var got [4]string
+			var got [5]string
 			if b, err := cur.Bool(name, idx); err != nil {
 				got[3] = "err"
 			} else {
@@ -223,6 +239,16 @@ func typedAll(cur *ucfg.Config, exp interface{}, path []string, visit func(at, t
 				got[2] = "err"
 			} else {
 				got[2] = "ok:" + canonFloat(f)
+			}
+			got[4] = "skip"
+			if name != "" && !strings.ContainsAny(name, "\"`,") {
+				st := reflect.New(reflect.StructOf([]reflect.StructField{{Name: "F", Type: reflect.TypeOf(time.Duration(0)),
+					Tag: reflect.StructTag(`config:"` + name + `"`)}}))
+				if err := cur.Unpack(st.Interface()); err != nil {
+					got[4] = "err"
+				} else {
+					got[4] = "ok:" + strconv.FormatInt(st.Elem().Field(0).Int(), 10)
+				}
 			}
 			visit(at, v[2:], got)
 		case map[string]interface{}, []interface{}:
@@ -471,19 +497,22 @@ func loadersReplay(args []string) int {
 								var e normExp
 								if json.Unmarshal(exp, &e) == nil && e.Ok != nil {
 									bad := ""
-									typedAll(cfg, e.Ok.M.canon(), nil, func(at, tok string, got [4]string) {
+									typedAll(cfg, e.Ok.M.canon(), nil, func(at, tok string, got [5]string) {
 										if bad != "" {
 											return
 										}
 										ideal := typedExpect(tok, false)
+										if got[4] == "skip" {
+											ideal[4] = "skip"
+										}
 										if got == ideal {
 											return
 										}
-										if known["JsonNumbersAsFloat64"] && ld.name != "yaml" && got == typedExpect(tok, true) {
+										if known["JsonNumbersAsFloat64"] && ld.name != "yaml" && got == withSkip(typedExpect(tok, true), got) {
 											rep.okKnown([]string{"JsonNumbersAsFloat64"}, raw)
 											return
 										}
-										bad = fmt.Sprintf("%s = %s: Uint/Int/Float/Bool gave %v, the token denotes %v", at, tok, got, ideal)
+										bad = fmt.Sprintf("%s = %s: Uint/Int/Float/Bool/Duration gave %v, the token denotes %v", at, tok, got, ideal)
 									})
 									if bad != "" {
 										rep.violate("typed-read", raw, bad, "the value of the document's number in every front-end", what)
